@@ -83,8 +83,20 @@ def key_kind(fi, e: ast.AST) -> str:
                     return "name"
                 if "PluginRef" in an:
                     return "ref"
-        ds = [v for k, v in local_defs(fi).get(e.id, []) if v is not None]
+        ldefs = local_defs(fi).get(e.id, [])
+        ds = [v for k, v in ldefs if v is not None and not k.endswith("unpack")]
         kinds = {key_kind(fi, d) for d in ds}
+        # `name, version = plugin_args(..)`: the helper returns (schema name, version)
+        for st in walk_local(fi.node):
+            if isinstance(st, ast.Assign) and len(st.targets) == 1 and isinstance(st.targets[0], ast.Tuple):
+                pos = [i for i, x in enumerate(st.targets[0].elts) if isinstance(x, ast.Name) and x.id == e.id]
+                if pos:
+                    if isinstance(st.value, ast.Call) and norm(st.value.func) == "plugin_args" and len(st.targets[0].elts) == 2:
+                        kinds.add("name" if pos[0] == 0 else "version")
+                    elif isinstance(st.value, ast.Tuple) and len(st.value.elts) == len(st.targets[0].elts):
+                        kinds.add(key_kind(fi, st.value.elts[pos[0]]))
+                    else:
+                        kinds.add("unknown")
         if len(kinds) == 1:
             return kinds.pop()
         if e.id in ("schema_name", "s", "name"):
